@@ -48,7 +48,7 @@ func TestC05(t *testing.T) {
 				if strat == "nv" && rapid.Bool().Draw(t, "preset") {
 					p = append([]int{}, rapid.SampledFrom(nvPresets).Draw(t, "presetv")...)
 				}
-				c.Inj = append(c.Inj, sim.StabInj{AtFiring: rapid.IntRange(0, 12).Draw(t, "at"), AsSel: rapid.IntRange(0, 9).Draw(t, "as"),
+				c.Inj = append(c.Inj, sim.StabInj{AtFiring: rapid.IntRange(0, 12).Draw(t, "at"), AsSel: rapid.IntRange(0, 9).Draw(t, "as"), Repeat: rapid.IntRange(0, 2).Draw(t, "repeat") == 0,
 					Spec: sim.ByzSpec{Strat: strat, To: uint16(1<<uint(cfg.N) - 1), V: uint64(rapid.IntRange(0, 3).Draw(t, "dv")), P: p}})
 			}
 		}
